@@ -18,8 +18,8 @@ from . import semprops, semjobs, adflib as A
 # the pre-study family: b: and(b,a), c: c, statement a symbolic (contains a: c, where heuristics a/b lose the stable model FFF)
 B_AND_BA = [((a >> 1) & 1) & (a & 1) for a in range(8)]
 C_C = [(a >> 2) & 1 for a in range(8)]
-PROCS = ['heu_a', 'heu_b']
-_spec, validate = semprops.make(PROCS, 'heu_a', must3=[['sym', B_AND_BA, C_C]], backend_kinds=('stable_counting',), quick_n3=16, extra_params={'heu_b': {'skip_n4': True}})
+PROCS = ['heu_a', 'heu_b', 'hyb/heu_a', 'hyb/heu_b']
+_spec, validate = semprops.make(PROCS, 'heu_a', must3=[['sym', B_AND_BA, C_C]], backend_kinds=('stable_counting',), quick_n3=16, extra_params={'heu_b': {'skip_n4': True}, 'hyb/heu_a': {'skip_n4': True}, 'hyb/heu_b': {'skip_n4': True}})
 
 
 def cube_job(e, p):
@@ -60,7 +60,7 @@ def spec(ctx, tier, seed):
 def replay(ctx, v):
     if v.get('kind') != 'cube-contract': return semprops.replay(ctx, v)
     c = v['case']; nat = ctx.native(release=True)
-    out = nat.call({'cmd': 'completion_search', 'n': c['n'], 'pos': c['goal_var'], 'tab': c['tab'], 'procs': PROCS, 'reference': 'stable', 'limit': 70000, 'want': 4}, timeout=600)
+    out = nat.call({'cmd': 'completion_search', 'n': c['n'], 'pos': c['goal_var'], 'tab': c['tab'], 'procs': ['heu_a', 'heu_b'], 'reference': 'stable', 'limit': 70000, 'want': 4}, timeout=600)
     tried = out.get('tried')
     for cand in out.get('candidates', []):
         case = {'n': c['n'], 'tabs': cand['tabs'], 'proc': cand['proc']}
